@@ -18,7 +18,9 @@ class FakeVCS:
         with open(os.path.join(self.dir, name), "w", encoding="utf-8", newline="") as f:
             f.write(text)
 
-    def set(self, tags=None, tags_branch=None, status=None, remote=None, branches=None, fail=None):
+    def set(self, tags=None, tags_branch=None, status=None, remote=None, branches=None, fail=None, tags_remote=None):
+        if tags_remote is not None:
+            self.put("tags_remote", "".join(t + "\n" for t in tags_remote))      # appended to the tag list by the first fetch
         if tags is not None:
             self.put("tags", "".join(t + "\n" for t in tags))
         if tags_branch is not None:
